@@ -196,6 +196,14 @@ def gen_scenario(rng, force=None):
             w = rng.choice(words_file)
             L.line_comment(directive_text(rng, w, gen_codes(rng, rules, decl) if rng.random() < 0.5 else []))
             L.newline()
+    if rng.random() < 0.2:
+        # an import/export declaration as the first item (module item that is not a statement)
+        L.token(rng.choice(['import "m";', 'import * as ns from "m"; ns;', 'export {};', 'export default 1;']))
+        L.newline()
+        if rng.random() < 0.4:
+            w = rng.choice(words_file)
+            L.line_comment(directive_text(rng, w, gen_codes(rng, rules, decl) if rng.random() < 0.5 else []))
+            L.newline()
     for _ in range(nlines):
         k = rng.random()
         if k < 0.22:
